@@ -1,5 +1,5 @@
 (* C18 — sequence crop applies one common box that contains every cube's own crop *)
-From NDV Require Import M_SeqCrop P_SeqCrop.
+From NDV Require Import M_SeqCrop P_SeqCrop P_SeqCropTight.
 Open Scope Z_scope.
 
 (* on every cube axis the common range starts at the smallest start and stops at the largest stop of the
@@ -11,6 +11,15 @@ Theorem C18_contains : forall (starts stops : list (list Z)) n, starts <> [] -> 
   (forall r, In r stops -> nth j r 0 <= nth j (col_max stops) 0).
 Proof. exact common_box_contains. Qed.
 Print Assumptions C18_contains.
+
+(* ... and it is the SMALLEST such range: each of its bounds is a bound of some cube's own box *)
+Theorem C18_tight : forall (starts stops : list (list Z)) n, starts <> [] -> stops <> [] ->
+  Forall (fun r => length r = n) starts -> Forall (fun r => length r = n) stops ->
+  forall j, (j < n)%nat ->
+  (exists r, In r starts /\ nth j (col_min starts) 0 = nth j r 0) /\
+  (exists r, In r stops /\ nth j (col_max stops) 0 = nth j r 0).
+Proof. exact common_box_tight. Qed.
+Print Assumptions C18_tight.
 
 (* the sequence axis is untouched *)
 Theorem C18_sequence_axis : forall cubes its, seq_crop_item cubes = Ok its ->
